@@ -480,8 +480,13 @@ def _tier_material(eps_tier, mu_tier, se_tier, sh_tier):
 # ---------------------------------------------------------------- build
 
 
-def build_scene(spec: dict, apply: bool = True) -> Scene:
-    """Place the scene with the real library. Raises whatever the library raises."""
+def build_scene(spec: dict, apply: bool = True, material_arrays: dict | None = None) -> Scene:
+    """Place the scene with the real library. Raises whatever the library raises.
+
+    material_arrays: optional dict as returned by `random_material_arrays` (numpy); when given the
+    placed material arrays are overwritten with it (shapes must match the placed tiers) and every
+    source / detector is re-applied against the final arrays (see fdsim.replica).
+    """
     env.bootstrap()
     import fdtdx
     import jax
@@ -543,10 +548,12 @@ def build_scene(spec: dict, apply: bool = True) -> Scene:
     if mats["mode"] == "random":
         ra = random_material_arrays(mats, tuple(spec["shape"]), np_dtype)
         arrays = overwrite_materials(arrays, ra)
+    if material_arrays is not None:
+        arrays = overwrite_materials(arrays, material_arrays)
 
     scene = Scene(spec=spec, objects=oc, arrays=arrays, config=config, params=params, info=info, key=key)
     if apply:
-        scene = apply_scene(scene)
+        scene = apply_scene(scene, reapply=material_arrays is not None)
     return scene
 
 
@@ -570,14 +577,14 @@ def overwrite_materials(arrays, ra: dict):
     return arrays
 
 
-def apply_scene(scene: Scene) -> Scene:
+def apply_scene(scene: Scene, reapply: bool = False) -> Scene:
     """apply_params, then re-apply every source/detector against the final arrays."""
     import fdtdx
     import jax
 
     arrays, oc, _ = fdtdx.apply_params(scene.arrays, scene.objects, scene.params, scene.key)
     mats = scene.spec.get("materials", {})
-    if mats.get("mode") == "random":
+    if mats.get("mode") == "random" or reapply:
         oc = reapply_objects(oc, arrays, scene.key)
     scene.arrays, scene.objects = arrays, oc
     return scene
